@@ -21,6 +21,10 @@
       ("fresh": nothing called before).
       oneshot stat memo (another stat-based method ran in the block before): the harness sends the table
       the memo was filled on as the own-stat world of step 0 — `PStep.withStatMemo`.
+      RANGE GATE (Model/C05Range.lean): in every op the MODEL looks processes up through `Process(pid)`'s range check
+      (`rcfg`: the limit the translator read off psutil_check_pid_range() / Process._init()); the SPEC never looks at the
+      magnitude of a PID. When the gate refuses the caller's own PID the model's answer is
+      {"kind":"exc","exc":"NoSuchProcess","pid":P,"at":"construct"} (the object cannot be built).
       `spec` is null where the specification is silent (which exception an unreadable stat file on the
       path of parent()/parents() produces; a caller whose own stat file is unreadable while it is still
       the same incarnation; a oneshot cache hit). An unreadable caller whose PID was in fact recycled must
@@ -73,6 +77,19 @@ def jPOut : POut → Json
   | .indexError => jExc "IndexError" none
   | .valueError => jExc "ValueError" none
 
+def jXOut {α : Type} (f : α → List (String × Json)) : XOut α → Json
+  | .ok v => jObj (("kind", "ok") :: f v)
+  | .nsp p => jExc "NoSuchProcess" (some p)
+  | .denied p => jExc "AccessDenied" (some p)
+  | .permissionError => jExc "PermissionError" none
+  | .fileNotFound => jExc "FileNotFoundError" none
+  | .indexError => jExc "IndexError" none
+  | .diverged => jObj [("kind", "diverged")]
+
+/-- `Process(pid)` refused by the range gate: the object cannot be built -/
+def jCtorRefused (pid : Nat) : Json :=
+  jObj [("kind", "exc"), ("exc", Json.str "NoSuchProcess"), ("pid", jNat pid), ("at", Json.str "construct")]
+
 /-- one tree call on the object `me` (module state `ps`): identity check + ppid_map() on `t0`, look-ups on `t1`.
     → the fields `model`, `spec` (+ `spec_stop`, `spec_found` for parent()/parents()), `flags`, `closed` -/
 def treeAnswer (call : String) (pid : Nat) (ps : Ps) (me : Caller) (t0 t1 : Table) : R (List (String × Json)) := do
@@ -90,7 +107,7 @@ def treeAnswer (call : String) (pid : Nat) (ps : Ps) (me : Caller) (t0 t1 : Tabl
   let nspJ := jExc "NoSuchProcess" (some pid)
   if call == "children" || call == "children_rec" then
     let recursive := call == "children_rec"
-    let m := (children cfg me recursive (lookOf t0) links look).2
+    let m := (childrenR rcfg cfg me recursive (lookOf t0) links look).2
     let sat := Spec.descSat links look me.ctime pid
     let isClosed := Spec.closed links look me.ctime pid sat
     let sp := if dead then nspJ
@@ -104,7 +121,8 @@ def treeAnswer (call : String) (pid : Nat) (ps : Ps) (me : Caller) (t0 t1 : Tabl
     return [("model", jOut (jProcs look) m), ("order", order), ("spec", sp), ("flags", flags),
       ("closed", Json.bool (isClosed || !recursive))]
   else if call == "parent" then
-    let m := (parent cfg ps t0 me).2.2
+    -- the plain model's `parent` on the table (C05_static_parent_refines), every construction through the range gate
+    let m := (parentXR rcfg cfg ps (stepOfX (Table.toX t0)) me none).2.2.2
     -- `spec`: the LITERAL reading of the statement (no lowest-PID rule; a dead caller gets NoSuchProcess whatever
     -- its PID). `spec_stop`: the same with psutil's rule "the lowest listed PID has no parent" (region of finding
     -- C05-lowest-pid-parent = where the two differ). `spec_found`: …and the stop answering BEFORE the identity
@@ -112,16 +130,16 @@ def treeAnswer (call : String) (pid : Nat) (ps : Ps) (me : Caller) (t0 t1 : Tabl
     let sp := if dead then nspJ else jObj (("kind", "ok") :: jParent (Spec.parentLit t0 pid me.ctime))
     let ss := if dead then nspJ else jObj (("kind", "ok") :: jParent (Spec.parentOf t0 pid me.ctime))
     let sf := if Spec.isRoot t0 pid then jObj (("kind", "ok") :: jParent none) else ss
-    return [("model", jOut jParent m), ("spec", sp), ("spec_stop", ss), ("spec_found", sf),
+    return [("model", jXOut jParent m), ("spec", sp), ("spec_stop", ss), ("spec_found", sf),
       ("flags", flags), ("closed", Json.bool true)]
   else if call == "parents" then
-    let m := (parents cfg ps t0 me).2
+    let m := (parentsXR rcfg cfg (parentsFuel t0) ps (fun _ => stepOfX (Table.toX t0)) me none).2
     let sp := if dead then nspJ
       else jObj (("kind", "ok") :: jChain (Spec.chainLitList t0 (t0.length + 1) [pid] pid me.ctime))
     let ss := if dead then nspJ
       else jObj (("kind", "ok") :: jChain (Spec.chainList t0 (t0.length + 1) [pid] pid me.ctime))
     let sf := if Spec.isRoot t0 pid then jObj (("kind", "ok") :: jChain []) else ss
-    return [("model", jOut jChain m), ("spec", sp), ("spec_stop", ss), ("spec_found", sf),
+    return [("model", jXOut jChain m), ("spec", sp), ("spec_stop", ss), ("spec_found", sf),
       ("flags", flags), ("closed", Json.bool true)]
   else .error s!"unknown call {call}"
 
@@ -173,6 +191,10 @@ def handleTree (j : Json) : R Json := do
   let ps : Ps := ⟨lowest⟩
   let jrun := jOpt Json.bool running
   let a ← treeAnswer call pid ps me t0 t1
+  -- the object itself is built through the gate: a refused PID cannot be opened at all
+  let a := match mkProcessR rcfg (lookOf mk) pid with
+    | .ok _ => a
+    | _ => a.map fun kv => if kv.1 == "model" then ("model", jCtorRefused pid) else kv
   return jObj (a ++ [("running", jrun), ("pre", Json.arr preOut.toArray),
     ("lowest_after_pre", jOpt jNat st.1.lowest)])
 
@@ -253,16 +275,7 @@ def parseStep (j : Json) : R (PStep × PStep) := do
     pure (⟨la, a.read, b.read, c.read⟩, ⟨la, truthRead a, b.read, c.read⟩)
   | _ => .error "step must be [ti, to, tp]"
 
-def jXOut {α : Type} (f : α → List (String × Json)) : XOut α → Json
-  | .ok v => jObj (("kind", "ok") :: f v)
-  | .nsp p => jExc "NoSuchProcess" (some p)
-  | .denied p => jExc "AccessDenied" (some p)
-  | .permissionError => jExc "PermissionError" none
-  | .fileNotFound => jExc "FileNotFoundError" none
-  | .indexError => jExc "IndexError" none
-  | .diverged => jObj [("kind", "diverged")]
-
-def handleDyn (j : Json) : R Json := do
+def handleDynCore (j : Json) : R Json := do
   let call ← strF j "call"
   let pid ← natF j "pid"
   let mk ← field j "mk" >>= parseWorldT
@@ -283,7 +296,7 @@ def handleDyn (j : Json) : R Json := do
     | Json.str "fresh" => pure (me0, some none)
     | other => do
       let tp ← parseWorldT other
-      let r := ppidX cfg (stepOfX tp) me0 (some none)
+      let r := ppidXR rcfg cfg (stepOfX tp) me0 (some none)
       pure (r.1, r.2.1))
   let cached : Bool := match os with | some (some _) => true | _ => false
   let ps : Ps := ⟨lowest⟩
@@ -309,7 +322,7 @@ def handleDyn (j : Json) : R Json := do
     let L := l0
     let w0 := t0.read
     let wl := t1.read
-    let m := (childrenX xcfg me recursive L w0 wl).2
+    let m := (childrenXR rcfg xcfg me recursive L w0 wl).2
     let links := Spec.linksOf L w0
     let look := lookOfW wl
     let alive : Bool := match w0 pid with
@@ -345,7 +358,7 @@ def handleDyn (j : Json) : R Json := do
         | .denied _ => true
         | _ => false
       if call == "parent" then
-        let m := (parentX cfg ps (W 0) me os).2.2.2
+        let m := (parentXR rcfg cfg ps (W 0) me os).2.2.2
         -- one reading of the statement: the value in the worlds as the code sees them (`spv`) and with every
         -- identity check reading the truth (`spt`); silent where an identity check cannot tell (own stat
         -- unreadable, same incarnation underneath) and about WHICH exception an unreadable stat file produces
@@ -366,7 +379,7 @@ def handleDyn (j : Json) : R Json := do
           ("closed", Json.bool true), ("cached", Json.bool cached)]
       else
         let fuel := 4096 + 2
-        let m := (parentsX cfg fuel ps W me os).2
+        let m := (parentsXR rcfg cfg fuel ps W me os).2
         let rd (spv spt : XOut (List Row)) : Json :=
           if cached then Json.null
           else if flagsDead then nspJ
@@ -381,6 +394,13 @@ def handleDyn (j : Json) : R Json := do
         return jObj [("model", jXOut jChain m), ("spec", sp), ("spec_stop", ss), ("spec_found", sf),
           ("closed", Json.bool true), ("cached", Json.bool cached)]
   else .error s!"unknown call {call}"
+
+/-- the richer world; the object itself is built through the range gate: a refused PID cannot be opened at all -/
+def handleDyn (j : Json) : R Json := do
+  let r ← handleDynCore j
+  let pid ← natF j "pid"
+  if pid < rcfg.limit then return r
+  else return r.setObjVal! "model" (jCtorRefused pid)
 
 def handle (_ : Unit) (j : Json) : R (Unit × Json) := do
   let op ← strF j "op"
